@@ -713,3 +713,44 @@ func HoldsAtJoin(at ssa.Instruction, pred func(Fact) bool) bool {
 	}
 	return false
 }
+
+// EqRel is Rel with a constant-time comparison read as the (in)equality of
+// what it compares: ConstantTimeCompare([]byte(a), []byte(b)) == 1 says a == b.
+func (f Fact) EqRel() Rel {
+	r := f.Rel()
+	if r.Op != token.EQL && r.Op != token.NEQ {
+		return r
+	}
+	x, y := r.X, r.Y
+	for k := 0; k < 2; k++ {
+		if call, ok := x.(*ssa.Call); ok {
+			if fn := call.Call.StaticCallee(); fn != nil && fn.String() == "crypto/subtle.ConstantTimeCompare" && len(call.Call.Args) == 2 {
+				if n, isC := ConstInt(y); isC && (n == 0 || n == 1) {
+					eq := (r.Op == token.EQL) == (n == 1)
+					op := token.NEQ
+					if eq {
+						op = token.EQL
+					}
+					return Rel{Op: op, X: stripConversions(call.Call.Args[0]), Y: stripConversions(call.Call.Args[1])}
+				}
+			}
+		}
+		x, y = y, x
+	}
+	return r
+}
+
+func stripConversions(v ssa.Value) ssa.Value {
+	for d := 0; d < 6; d++ {
+		switch x := v.(type) {
+		case *ssa.Convert:
+			v = x.X
+			continue
+		case *ssa.ChangeType:
+			v = x.X
+			continue
+		}
+		break
+	}
+	return v
+}
